@@ -152,9 +152,22 @@ def catalogue_refseq(view, b):
         "cfgs": {n: [c.kind.name, [sorted(d.items()) for d in c.cn]] for n, c in sorted(g.cn_configs.items())},
         "alleles": {an: [a.cn_config, ks(a.func_muts), {mn: ks(m.neutral_muts) for mn, m in sorted(a.minors.items())}]
                     for an, a in sorted(g.alleles.items())},
-        "variants": sorted([f"{k[0]}{k[1]}", v[0] is not None, (g.region_at(p) or (None, None))[1]]
+        # per variant: functional?, and the gene copies every structure has at its region (what has_coverage
+        # answers); the region NAME itself is reported separately (variant_regions): seven shipped databases
+        # annotate up/utr5 or utr3/down differently in the two builds, without effect on any structure
+        "variants": sorted([f"{k[0]}{k[1]}", v[0] is not None, _copies_at(g, p)]
                            for (p, o), v in g.mutations.items() for k in [(v[3] + 1, v[4])]),
     }
+
+
+def _copies_at(g, pos):
+    r = g.region_at(pos)
+    return sorted([n, (c.cn[r[0]][r[1]] if r else -1)] for n, c in g.cn_configs.items()) + [r[0] if r else -1]
+
+
+def variant_regions(view, b):
+    g = view.gene[b]
+    return {f"{v[3] + 1}{v[4]}": (g.region_at(p) or (None, None))[1] for (p, o), v in g.mutations.items()}
 
 
 # =========================================================================== abstract evidence
@@ -378,3 +391,507 @@ def run_build(view, b, E, params, planted_struct, max_major=3, stage_rows=None, 
                 stage_rows["minor"].append(project.minor_case(f"{eid}/{ci}/{mi}", g, cov, ms, minors, enumerate_all=False))
     ev["names"] = sorted(names)
     return ev
+
+
+# =========================================================================== rows of BuildTrace
+def _digest(obj):
+    import hashlib
+
+    return hashlib.sha1(json.dumps(obj, sort_keys=True, default=str).encode()).hexdigest()[:16]
+
+
+def _tie_size(g, alleles_called, novel_keys):
+    """Number of (allele copy, considered variant) pairs of the minor model: bound of the ordinal that
+    scales its tie-breaking term (minor.py: minor_add * (1 + cnt / 1e6))."""
+    cnt = collections.Counter(alleles_called)
+    ncopies = sum(len(g.alleles[a].minors) * n for a, n in cnt.items())
+    muts = set(g.random_mutations)
+    for a in cnt:
+        muts |= set(g.alleles[a].func_muts)
+        for mi in g.alleles[a].minors.values():
+            muts |= set(mi.neutral_muts)
+    return ncopies * (len(muts) + len(novel_keys)) + 1
+
+
+def event_row(view, b, ev, fam, first, kind, evd, tol, band, cat=None):
+    g = view.gene[b]
+    mentioned = {a for m in ev["major"] for s in m["sols"] for a in s["alleles"]} | {a for m in ev["minor"] for a in m["alleles"]}
+    mentioned |= {c[0] for m in ev["minor"] for s in m["sols"] for c in s["copies"]}
+    row = {
+        "fam": fam, "first": first, "kind": kind, "build": b, "raised": ev["raised"], "lost": ev["lost"], "mismatch": ev["mismatch"],
+        "cat": cat or _digest(catalogue_refseq(view, b)), "evd": evd, "tol": tol, "band": band,
+        "cfgs": sorted(g.cn_configs), "majors": sorted([an, a.cn_config] for an, a in g.alleles.items()),
+        "minors": sorted([an, mn] for an in mentioned if an in g.alleles for mn in g.alleles[an].minors),
+        "variants": sorted({f"{v[3] + 1}{v[4]}" for v in g.mutations.values()}),
+        "cn": ev["cn"], "major": ev["major"], "final": ev.get("final", []), "minor": [],
+    }
+    for m in ev["minor"]:
+        row["minor"].append({"struct": m["struct"], "alleles": m["alleles"], "novel": m["novel"],
+                             "tie": _tie_size(g, [a for a in m["alleles"] if a in g.alleles], m["novel"]),
+                             "sols": [{"score": s["score"], "nadd": sum(len(c[2]) for c in s["copies"]), "copies": s["copies"]} for s in m["sols"]]})
+    return row
+
+
+# =========================================================================== (i) evidence-table families
+def _params(rng):
+    kw = {}
+    if rng.random() < 0.25:
+        kw = rng.choice([{"gap": 0.1}, {"threshold": 0.3}, {"min_coverage": 1}, {"minor_add": 0.5}, {"gap": 0.3}])
+    return kw
+
+
+def _table_task(task):
+    spec, seed, nfam, stages = task
+    rng = random.Random(seed)
+    out = {"rows": [], "meta": {}, "stage": {"cn": [], "major": [], "minor": []}, "skipped": [], "label": str(spec)}
+    try:
+        view = load_view(spec)
+    except Exception as ex:  # a loader exception under a mutant is a verdict, not machinery
+        out["loadfail"] = f"{type(ex).__name__}: {ex}"[:300]
+        return out
+    out["label"] = view.label
+    out["opposite"] = view.opposite
+    if view.opposite and not view.disjoint_loci():
+        out["skipped"].append("opposite strands with touching variant footprints: the locus of a variant is strand dependent")
+        return out
+    cats = {b: catalogue_refseq(view, b) for b in BUILDS}
+    cat_d = {b: _digest(cats[b]) for b in BUILDS}
+    vr = {b: variant_regions(view, b) for b in BUILDS}
+    out["region_name_differs"] = sorted([k, vr["hg19"][k], vr["hg38"].get(k)] for k in vr["hg19"] if vr["hg19"][k] != vr["hg38"].get(k))
+    for f in range(nfam):
+        planted, E = plant_abstract(view, rng)
+        m = rng.random()
+        noise = "none"
+        if m > 0.3:
+            noise = "level"
+            E = perturb_abstract(view, rng, E, level=rng.choice([0.1, 0.3, 0.5]), drop=0.05 if m > 0.7 else 0.0,
+                                 spurious=0.3 if m > 0.6 else 0.0)
+        params = _params(rng)
+        evd = _digest(ev_rows(E))
+        fam = f"{view.label}/{seed}/{f}"
+        dele = view.gene["hg19"].deletion_allele()
+        struct = [c for c in planted["struct"] if c != dele]
+        evs = {}
+        for i, b in enumerate(BUILDS):
+            eid = f"{fam}/{b}"
+            sr = out["stage"] if stages else None
+            with aldyenv.quiet_stderr():
+                evs[b] = run_build(view, b, E, params, struct, stage_rows=sr, eid=eid)
+            row = event_row(view, b, evs[b], fam, i == 0, "table", evd, 2, 2, cat=cat_d[b])
+            row["id"] = eid
+            out["rows"].append(row)
+        out["meta"][fam] = {
+            "database": view.label, "db_spec": list(spec) if spec[0] != "gen" else ["gen", spec[1], spec[2]],
+            "seed": seed, "family": f, "strands": view.strand, "planted": planted, "noise": noise, "params": params,
+            "evidence_refseq": ev_rows(E),
+            "results": {b: {k: evs[b][k] for k in ("raised", "lost", "mismatch", "cn", "major", "minor")} for b in BUILDS},
+            "catalogue_differs": None if cat_d["hg19"] == cat_d["hg38"] else _cat_diff(cats),
+            "nontrivial": bool(evs["hg19"]["minor"] and evs["hg19"]["minor"][0]["sols"]),
+            "fusion_called": any(c != "1" for s in evs["hg19"]["cn"] for c in s["struct"]),
+            "indel_planted": any(gen_db.kind_of(k.lstrip("0123456789")) != "sub" for ks in planted["carried"] for k in ks),
+        }
+    return out
+
+
+def _cat_diff(cats):
+    a, b = cats["hg19"], cats["hg38"]
+    d = {}
+    for k in a:
+        if a[k] != b[k]:
+            if isinstance(a[k], dict):
+                d[k] = {x: [a[k].get(x), b[k].get(x)] for x in sorted(set(a[k]) | set(b[k])) if a[k].get(x) != b[k].get(x)}
+                d[k] = dict(list(d[k].items())[:5])
+            else:
+                d[k] = [a[k], b[k]]
+    return d
+
+
+# =========================================================================== (ii) alignment families
+def _refseq_list(g, raw):
+    return sorted(g.get_refseq(p, o) for p, o in raw)
+
+
+def reads_event(view, b, run):
+    g = view.gene[b]
+    ev = {"raised": "", "lost": [], "mismatch": [], "cn": [], "major": [], "minor": [], "final": []}
+    if run["error"]:
+        ev["raised"] = f"{run['error_type']}: {run['error']}"[:200]
+        return ev
+    for e in run["events"]:
+        if e["k"] == "cn":
+            ev["cn"] = sorted(({"struct": sorted(s["struct"]), "score": fixs(s["score"])} for s in e["sols"]), key=lambda s: s["struct"])
+        elif e["k"] == "major":
+            sols = sorted(({"alleles": sorted(s["alleles"]), "novel": _refseq_list(g, s["novel_raw"]), "score": fixs(s["score"])} for s in e["sols"]),
+                          key=lambda s: (s["alleles"], s["novel"]))
+            ev["major"].append({"struct": sorted(e["cn"]["struct"]), "sols": sols})
+        elif e["k"] == "minor_solve":
+            mj = e["major"]
+            ev["minor"].append({"struct": sorted(mj["cn"]), "alleles": sorted(mj["alleles"]), "novel": _refseq_list(g, mj["novel_raw"]),
+                                "sols": [{"score": fixs(s["score"]),
+                                          "copies": sorted([c["major"], c["minor"], _refseq_list(g, c["added_raw"]), _refseq_list(g, c["missing_raw"])]
+                                                           for c in s["copies"])} for s in e["sols"]]})
+    ev["major"].sort(key=lambda m: m["struct"])
+    ev["minor"].sort(key=lambda m: (m["struct"], m["alleles"], m["novel"]))
+    for s in run["result"] or []:
+        copies = sorted([c["major"], c["minor"], _refseq_list(g, c["added_raw"]), _refseq_list(g, c["missing_raw"])] for c in s["copies"])
+        ev["final"].append({"key": json.dumps([sorted(s["major"][2]), sorted(s["major"][0]), copies]), "score": fixs(s["score"]),
+                            "diplotype": s["major_diplotype"]})
+    ev["final"].sort(key=lambda s: s["key"])
+    return ev
+
+
+def _reads_task(task):
+    spec, seed, nfam = task
+    rng = random.Random(seed)
+    out = {"rows": [], "meta": {}, "skipped": [], "label": str(spec)}
+    with tempfile.TemporaryDirectory(prefix="c13_", dir=tlc.scratch()) as d:
+        try:
+            if spec[0] == "toys":
+                txt, _ = gen_reads.toy_yaml(spec[1], spec[2], seed=spec[3])
+                yml = os.path.join(d, "toys.yml")
+                with open(yml, "w") as f:
+                    f.write(txt)
+                db = gen_db.from_yaml(yml)
+                for b in BUILDS:
+                    db["builds"][b]["contig_length"] = 20000
+                view = View(f"toys{spec[1]}{spec[2]}/{spec[3]}", db, gen_db.load(yml, "hg19"), gen_db.load(yml, "hg38"))
+            else:
+                db = gen_db.random_db(random.Random(spec[1]), **spec[2])
+                yml = os.path.join(d, "genx.yml")
+                gen_db.realise(db, yml)
+                view = View(f"gen/{spec[1]}", db, gen_db.load(yml, "hg19"), gen_db.load(yml, "hg38"))
+        except Exception as ex:
+            out["loadfail"] = f"{type(ex).__name__}: {ex}"[:300]
+            return out
+        out["label"] = view.label
+        cat_d = {b: _digest(catalogue_refseq(view, b)) for b in BUILDS}
+        for f in range(nfam):
+            planted, _E = plant_abstract(view, rng, maxcopies=3)
+            depth = rng.choice([10, 20, 25])
+            read_len = 100
+            fam = f"reads/{view.label}/{seed}/{f}"
+            evs, runs_meta, skip = {}, {}, None
+            sim_seed = rng.randrange(1 << 30)
+            for b in BUILDS:
+                g = view.gene[b]
+                haps = []
+                for (c, a, mi, weak), keys in zip(planted["bag"], planted["carried"]):
+                    vs = [tuple(view.loaded[b][k]) for k in view.keys if f"{k[0]}{k[1]}" in keys]
+                    haps.append((c, vs, True) if weak else (c, vs))
+                bam = os.path.join(d, f"s{f}_{b}.bam")
+                try:
+                    s = gen_reads.simulate_sample(g, haps, read_len, depth, bam, random.Random(sim_seed),
+                                                  contig_len=db["builds"][b]["contig_length"], mode="tile")
+                except Exception as ex:  # simulator limitation: not a verdict
+                    skip = f"{type(ex).__name__}: {ex}"[:200]
+                    break
+                with aldyenv.quiet_stderr():
+                    r = pipeline.run_genotype(yml, s["bam"], s["profile_bam"], cn_region=s["cn_region"], genome=b)
+                evs[b] = reads_event(view, b, r)
+                runs_meta[b] = {"error": r["error"], "result": [(x["major_diplotype"], x["minor_diplotype"], x["score"]) for x in (r["result"] or [])]}
+                for p in (bam, bam + ".bai", s.get("profile_bam", ""), s.get("profile_bam", "") + ".bai"):
+                    if p and os.path.exists(p):
+                        os.unlink(p)
+            if skip:
+                out["skipped"].append(skip)
+                continue
+            nind = sum(1 for ks in planted["carried"] for k in ks if gen_db.kind_of(k.lstrip("0123456789")) in ("ins", "del", "delins"))
+            nfus = sum(1 for c in planted["struct"] if c != "1")
+            # three-valued band (units of 1e-6): see run() ctx.assumptions
+            band = int(round(SCORE_U * (1 + nind + nfus) * 2.0 * (len(planted["struct"]) + 1) / depth))
+            evd = _digest([planted["bag"], planted["carried"], depth, read_len])
+            for i, b in enumerate(BUILDS):
+                row = event_row(view, b, evs[b], fam, i == 0, "reads", evd, 2, band, cat=cat_d[b])
+                row["id"] = f"{fam}/{b}"
+                for x in row["final"]:
+                    x.pop("diplotype", None)
+                out["rows"].append(row)
+            out["meta"][fam] = {"database": view.label, "db_spec": [spec[0], spec[1], spec[2]] + list(spec[3:]), "seed": seed, "family": f,
+                                "strands": view.strand, "planted": planted, "depth": depth, "read_len": read_len, "band_1e-6": band,
+                                "yaml": open(yml).read() if f == 0 else "(same as family 0 of the task)",
+                                "results": {b: {k: evs[b][k] for k in ("raised", "cn", "major", "minor", "final")} for b in BUILDS}, "runs": runs_meta,
+                                "nontrivial": bool(evs["hg19"]["final"]), "fusion_called": any(c != "1" for s in evs["hg19"]["cn"] for c in s["struct"]),
+                                "indel_planted": nind > 0, "catalogue_differs": None}
+    return out
+
+
+# =========================================================================== the check
+HAZARDS = [("mc/MC_BuildIndep_genome_order.cfg", "BuildFree", "hazard RunGenomeOrder (regions always in genome order)"),
+           ("mc/MC_BuildIndep_refseq_anchor.cfg", "BuildFree", "hazard RunRefSeqAnchor (variant keyed by the genome image of its first RefSeq base)"),
+           ("mc/MC_BuildIndep_nonempty.cfg", "NothingCalled", "probe: some evidence table yields a refined call"),
+           ("mc/MC_BuildIndep_fusion.cfg", "NoFusionCalled", "probe: some evidence table yields a fused structure")]
+
+GEN_OPTS = [dict(strands=("+", "-"), pseudogene=True), dict(strands=("-", "+"), pseudogene=True), dict(strands=("+", "-")),
+            dict(strands=("-", "+"), zero_region=True, pseudogene=True), dict(strands=("+", "-"), gaps=0.8, pseudogene=True),
+            dict(strands=("-", "+"), kinds=dict(sub=2, msub=2, **{"del": 3, "ins": 3, "delins": 2})),
+            dict(strands=("+", "-"), fusions=dict(left=2, right=1), pseudogene=True, zero_region=True)]
+
+
+def _spec_models(ctx, quick):
+    import concurrent.futures
+
+    jobs = [("mc/MC_BuildIndep_quick.cfg" if quick else "mc/MC_BuildIndep.cfg", None, "BuildFree holds for Next")] + HAZARDS
+
+    def one(j):
+        cfg, expect, what = j
+        r = tlc.run("mc/MC_BuildIndep", cfg, workers=6 if quick or expect else 16, timeout=3000, coverage=not quick and not expect)
+        return j, r
+
+    with concurrent.futures.ThreadPoolExecutor(max_workers=5 if quick else 2) as ex:
+        for (cfg, expect, what), r in ex.map(one, jobs):
+            ctx.states += r.distinct
+            ctx.transitions += r.generated
+            ctx.mc_runs.append(dict(r.summary(), module="MC_BuildIndep", cfg=os.path.basename(cfg), expects=expect or "no violation", what=what,
+                                    actions={k: v for k, v in r.coverage.items() if k.startswith("BuildIndep!Run")} or None))
+            if expect is None and not r.ok:
+                raise MachineryError(f"spec-level check MC_BuildIndep ({cfg}) failed: {r.violated}\n{r.error_text[:3000]}")
+            if expect is not None and r.violated != expect:
+                raise MachineryError(f"anti-vacuity: {cfg} was expected to violate {expect}, TLC reported {r.violated} (ok={r.ok})")
+
+
+def _canaries(rng, rows, rejected_ids, n):
+    """Corrupted copies of accepted families (one field of the second event changed)."""
+    by_fam = collections.OrderedDict()
+    for r in rows:
+        by_fam.setdefault(r["fam"], []).append(r)
+    good = [f for f, rs in by_fam.items() if len(rs) == 2 and not any(r["id"] in rejected_ids for r in rs) and rs[0]["cn"]]
+    out, info = [], {}
+    for i, fam in enumerate(rng.sample(good, min(n, len(good)))):
+        a, b = (json.loads(json.dumps(r)) for r in by_fam[fam])
+        kinds = ["cnscore"]
+        if any(m["sols"] for m in b["major"]):
+            kinds += ["majorallele", "majorscore", "novel"]
+        if any(m["sols"] for m in b["minor"]):
+            kinds += ["minorscore", "minorname", "added", "addedstrand"]
+        if b["final"]:
+            kinds += ["finalscore"]
+        kind = kinds[i % len(kinds)]
+        if kind == "cnscore":
+            b["cn"][0]["score"] += 5 * b["band"] + 50
+        elif kind in ("majorallele", "majorscore", "novel"):
+            m = next(m for m in b["major"] if m["sols"])
+            s = m["sols"][0]
+            if kind == "majorscore":
+                s["score"] += 5 * b["band"] + 50
+            elif kind == "novel":
+                s["novel"] = sorted(s["novel"] + ["-"])
+            else:
+                cfg = dict(map(tuple, b["majors"]))
+                alt = [x for x, c in cfg.items() if s["alleles"] and c == cfg.get(s["alleles"][0]) and x != s["alleles"][0]]
+                if not alt or not s["alleles"]:
+                    s["score"] += 5 * b["band"] + 50
+                else:
+                    s["alleles"] = sorted([alt[0]] + s["alleles"][1:])
+        else:
+            if kind == "finalscore":
+                b["final"][0]["score"] += 5 * b["band"] + 50
+            else:
+                m = next(m for m in b["minor"] if m["sols"])
+                s = m["sols"][0]
+                if kind == "minorscore" or not s["copies"]:
+                    s["score"] += 5 * b["band"] + 5 * max(1, s["nadd"]) * m["tie"] + 50
+                elif kind == "minorname":
+                    s["copies"][0][1] = s["copies"][0][1] + "x"
+                elif kind == "added":
+                    s["copies"][0][2] = sorted(s["copies"][0][2] + ["-"])
+                else:  # a variant printed in genome orientation instead of RefSeq notation
+                    s["copies"][0][3] = sorted(s["copies"][0][3] + ["1" + rc_op("A>C")]) if "1T>G" not in b["variants"] else s["copies"][0][3] + ["0A>A"]
+        cf = f"canary/{i}"
+        a["fam"] = b["fam"] = cf
+        a["id"], b["id"] = f"{cf}/a", f"{cf}/b"
+        out += [a, b]
+        info[f"{cf}/b"] = (kind, fam)
+    return out, info
+
+
+def run(ctx):
+    aldyenv.setup()
+    rng = random.Random(13000 + ctx.seed)
+    quick = ctx.tier == "quick"
+    ctx.rule = (
+        "MC: BuildIndep over every evidence table nv,nr in {0,10,20}^3 x 4-5 region-depth vectors of a 3-variant / 3-allele / one-left-fusion "
+        "catalogue, builds on opposite strands and different offsets; BuildFree for Next, violated with each hazard action. "
+        "(B)(i) family = one database + one evidence table in RefSeq terms (planted 1-4 copies incl. fusions / partial alleles / extra copies; "
+        "noise-free or multiplicative noise, dropped and spurious ops, region-depth noise) -> per build: independent transport, real "
+        "estimate_cn -> estimate_major (first 2 structures) -> estimate_minor (first 3 major solutions); all 37-38 shipped databases, the "
+        "toy gene (+/-), gen_db databases with opposite strands and different offsets. (ii) family = haplotypes simulated (tiled, same "
+        "depth/read length) against each build + real genotype(). distinct = distinct family; non-trivial = a refined solution was reported."
+    )
+    ctx.trusted = ["harness/gen_db.py (Mapper, from_yaml)", "harness/gen_reads.py", "harness/evidence.py make_coverage", "harness/project.py",
+                   "harness/pipeline.py recorders", "TLC"]
+    ctx.assumptions = [
+        "table level: reference counts are uniform over the bases one variant replaces (reads without the variant span all of it); "
+        "databases whose two builds are on opposite strands AND have touching variant footprints are skipped (the locus of a variant is then strand dependent)",
+        "table level scores compared in units of 1e-6 with tolerance 2e-6",
+        "alignment level, three-valued: |score difference| <= 2e-6 ACCEPT; <= band = (1 + planted indel loci + non-default structures) * 2 * (copies + 1) / depth "
+        "(+ 0.4 * 2 * (1 + planted multi-base loci) * copies when read phasing is on) UNDECIDED: tiling offsets differ between strands, the simulator "
+        "drops the reads that would start/end inside an indel (+-1 read per copy and locus); a different refined solution inside the band is UNDECIDED too",
+        "minor stage with read phasing is only exercised by (ii)",
+    ]
+    # ---------------- implementation side
+    tasks = []
+    for j in range(12 if quick else 60):
+        tasks.append((("toy",), rng.randrange(1 << 30), 20 if quick else 60, True))
+    for j in range(42 if quick else 400):
+        opts = GEN_OPTS[j % len(GEN_OPTS)]
+        tasks.append((("gen", rng.randrange(1 << 30), opts), rng.randrange(1 << 30), 7 if quick else 14, j % 2 == 0))
+    for n in genes.shipped_names():
+        if n == "dpyd" and quick:
+            continue
+        big = n in ("cyp2d6", "cyp2a6", "dpyd", "ryr1")
+        for j in range(1 if quick else (4 if not big else 8)):
+            tasks.append((("shipped", n), rng.randrange(1 << 30), (3 if not big else 2) if quick else (12 if not big else 6), not big and j == 0))
+    if quick:
+        tasks += [(("shipped", "cyp2d6"), rng.randrange(1 << 30), 2, False), (("shipped", "cyp2a6"), rng.randrange(1 << 30), 2, True)]
+    rtasks = []
+    for j in range(8 if quick else 80):
+        if j % 4 == 0:
+            s = rng.choice([("+", "-"), ("-", "+")])
+            rtasks.append((("toys", s[0], s[1], rng.randrange(40)), rng.randrange(1 << 30), 2 if quick else 4))
+        else:
+            rtasks.append((("gen", rng.randrange(1 << 30), GEN_OPTS[j % 4]), rng.randrange(1 << 30), 2 if quick else 4))
+    outs = par.pmap(_any_task, [("t", t) for t in tasks] + [("r", t) for t in rtasks])
+    rows, meta, stage = [], {}, {"cn": [], "major": [], "minor": []}
+    parts = collections.Counter()
+    skipped = []
+    for o in outs:
+        if o.get("loadfail"):
+            ctx.violation("LoaderRaised", {"stage": "load", "clause": "LoaderRaised"}, {"database": o["label"]}, f"{o['label']}: {o['loadfail']}")
+            continue
+        rows += o["rows"]
+        meta.update(o["meta"])
+        skipped += [f"{o['label']}: {s}" for s in o["skipped"]]
+        for k in stage:
+            stage[k] += o.get("stage", {}).get(k, [])
+    for fam, m in meta.items():
+        kind = "reads" if fam.startswith("reads/") else "table"
+        src = "toy" if m["database"].startswith("toy") else "gen" if m["database"].startswith("gen/") else "shipped"
+        ctx.count(1, key=fam, nontrivial=m["nontrivial"])
+        ctx.traces += 2
+        parts[f"{kind}:{src}"] += 1
+        parts[f"{kind}:opposite_strands"] += m["strands"]["hg19"] != m["strands"]["hg38"]
+        parts[f"{kind}:fusion_called"] += bool(m["fusion_called"])
+        parts[f"{kind}:indel_planted"] += bool(m["indel_planted"])
+        parts[f"{kind}:refined_solution"] += bool(m["nontrivial"])
+    ctx.parts["families"] = dict(parts)
+    rn = {}
+    for o in outs:
+        if o.get("region_name_differs"):
+            rn[o["label"]] = o["region_name_differs"][:6]
+    ctx.parts["variant_region_name_differs_between_builds(C09 territory, no structure tells the regions apart)"] = rn
+    ctx.parts["skipped"] = {"n": len(skipped), "examples": skipped[:5]}
+    ctx.parts["shipped_databases"] = len({m["database"] for m in meta.values() if not m["database"].startswith(("toy", "gen/"))})
+    ks = list(meta)
+    for k in ks[:1] + [k for k in ks if k.startswith("gen/")][:1] + [k for k in ks if k.startswith("reads/")][:1]:
+        ctx.sample({"family": k, "case": {kk: vv for kk, vv in meta[k].items() if kk != "yaml"}})
+    # ---------------- specification side: model checking, then the trace batches
+    _spec_models(ctx, quick)
+    verdicts = _validate(ctx, rows)
+    crow, cinfo = _canaries(rng, rows, set(verdicts), 24 if quick else 60)
+    cver = _validate(ctx, crow, label="canary")
+    for cid, (kind, fam) in cinfo.items():
+        ok = cid in cver and not cver[cid].startswith("UNDECIDED")
+        if not ok:
+            print(f"ACCEPTED CANARY {cid} kind={kind} from {fam}: {cver.get(cid)}")
+        ctx.canary(ok)
+    # every stage event in full against the stage specifications
+    sver = _validate_stages(ctx, stage)
+    # ---------------- verdicts
+    for rid, clause in verdicts.items():
+        fam = rid.rsplit("/", 1)[0]
+        m = meta[fam]
+        if clause.startswith("UNDECIDED"):
+            ctx.undecided += 1
+            continue
+        if clause.startswith("BadCase"):
+            raise MachineryError(f"{clause} in {rid}")
+        kind = "reads" if fam.startswith("reads/") else "table"
+        src = "toy" if m["database"].startswith("toy") else "gen" if m["database"].startswith("gen/") else "shipped"
+        stg = "minor" if "inor" in clause else "major" if "ajor" in clause else "cn" if "(cn)" in clause or "Structure" in clause else "other"
+        detail = f"{rid}: hg19={json.dumps(m['results']['hg19'])[:600]} hg38={json.dumps(m['results']['hg38'])[:600]}"
+        if clause == "CatalogueBuildFree":
+            detail = f"{rid}: the loaded catalogues differ in RefSeq terms (C09 territory): {json.dumps(m['catalogue_differs'])[:800]}"
+        ctx.violation(clause, {"stage": stg, "clause": clause, "kind": kind, "source": src}, dict(m, rid=rid), detail)
+    for sid, clause in sver.items():
+        if clause.startswith("UNDECIDED"):
+            ctx.undecided += 1
+            continue
+        fam = next((f for f in meta if sid.startswith(f + "/")), None)
+        ctx.violation("StageSemantics:" + clause, {"stage": "stage-spec", "clause": clause}, dict(meta.get(fam, {}), sid=sid),
+                      f"{sid}: the stage event is not an instance of the stage specification ({clause})")
+
+
+def _any_task(t):
+    return _table_task(t[1]) if t[0] == "t" else _reads_task(t[1])
+
+
+def _validate(ctx, rows, label="BuildTrace"):
+    """BuildTrace over families (ids and family names interned to small integers)."""
+    if not rows:
+        return {}
+    fams = {}
+    wire = []
+    for i, r in enumerate(rows):
+        fams.setdefault(r["fam"], len(fams) + 1)
+        wire.append(dict(r, id=i, fam=fams[r["fam"]]))
+    rej = ctx.trace_batches("trace/BuildTrace", "trace/BuildTrace.cfg", wire, label=label, chunk=max(40, len(wire) // 12 + 1), group=lambda r: r["fam"])
+    out = {}
+    for r in rej:
+        out.setdefault(rows[r[0]]["id"], r[1])
+    return out
+
+
+def _validate_stages(ctx, stage):
+    out = {}
+    for k, module in (("cn", "CNTrace"), ("major", "MajorTrace"), ("minor", "MinorTrace")):
+        rows = stage[k]
+        if not rows:
+            continue
+        wire = [dict(r, id=i) for i, r in enumerate(rows)]
+        if k == "cn":
+            wire.sort(key=lambda r: -len(r["cfgs"]) * r["M"] * r["M"])
+        nch = 10
+        wire = [r for i in range(nch) for r in wire[i::nch]]
+        rej = ctx.trace_batches(f"trace/{module}", f"trace/{module}.cfg", wire, label=module, chunk=(len(wire) + nch - 1) // nch, jobs=nch)
+        ctx.parts[f"stage_events_{k}"] = len(rows)
+        for r in rej:
+            out.setdefault(rows[r[0]]["id"], f"{k}:{r[1]}" if not r[1].startswith("UNDECIDED") else r[1])
+    return out
+
+
+def replay(path):
+    from ..core import Ctx
+
+    aldyenv.setup()
+    with open(path) as f:
+        blob = json.load(f)
+    m = blob["case"]
+    if "db_spec" not in m or "evidence_refseq" not in m:
+        print("alignment families and loader failures are re-validated by running the check with the same seed")
+        return 0
+    spec = m["db_spec"]
+    spec = tuple(spec) if spec[0] != "gen" else ("gen", spec[1], {k: (tuple(v) if isinstance(v, list) else v) for k, v in spec[2].items()})
+    view = load_view(spec)
+    er = m["evidence_refseq"]
+    keyof = {f"{p}{o}": (p, o) for p, o in set(view.loaded["hg19"]) | set(view.loaded["hg38"])}
+    E = {"V": {keyof[k]: n for k, n in er["V"]}, "R": {int(r): n for r, n in er["R"]}, "X": {(int(r), o): n for r, o, n in er["X"]},
+         "D": {r: [g / 100.0, p / 100.0] for r, g, p in er["D"]}}
+    dele = view.gene["hg19"].deletion_allele()
+    struct = [c for c in m["planted"]["struct"] if c != dele]
+    rows = []
+    for i, b in enumerate(BUILDS):
+        with aldyenv.quiet_stderr():
+            ev = run_build(view, b, E, m["params"], struct)
+        print(b, json.dumps({k: ev[k] for k in ("raised", "cn", "major", "minor")})[:1500])
+        row = event_row(view, b, ev, 1, i == 0, "table", "replay", 2, 2)
+        row["id"] = i
+        rows.append(row)
+    ctx = Ctx("C13", "quick", 0)
+    rej = ctx.trace_batch("trace/BuildTrace", "trace/BuildTrace.cfg", rows, label="replay")
+    bad = [r for r in rej if not r[1].startswith("UNDECIDED")]
+    if bad:
+        print(f"VIOLATION property=C13 replay={path}")
+        print("  rejected:", bad)
+        return 1
+    print("replay: accepted")
+    return 0
